@@ -20,6 +20,8 @@ DECIDED = ('(a) a built value is validated in the context the matcher will see: 
            'wildcard emits exactly the literal pattern_out[literal_start:index] before the value and restarts the literal '
            'after the marker, and the trailing literal is emitted after the loop - checked by propagating linear equalities '
            'over the three paths of the loop body.')
+DECIDED_MORE = ('Also: the URL parts are collected in a list created by the call.')
+DECIDED = DECIDED + ' ' + DECIDED_MORE
 NOT_DECIDED = 'match o build = identity over all runtime strings (regex semantics of user filters; float repr of exponent forms).'
 ASSUMPTIONS = ['str(int(x)) / str(float(x)) round-trip through int / float', 'pattern_out contains one marker character per wildcard']
 
